@@ -15,9 +15,9 @@ use serde_json::json;
 pub const META: PropMeta = PropMeta {
     id: "C09",
     level: "exploration",
-    rule: "cases = registries that contain every heap-allocated prelude type (Vec, String, Box, BTreeMap, BTreeSet, BinaryHeap, VecDeque, Cow) at field, nested and substituted-argument positions, multi-line docs on types and variants, compact fields, bit sequences, explicit variant indices (simulator programs, plus one hand-built 'all heap types' program per shard); each generated under ALL 2^6 combinations of {alloc path std/custom, docs on/off, codec attributes on/off, root name a/b, compact path a/b, decoded-bits path a/b}, followed on the same thread by 4 combinations with THIRD values (a second custom alloc path, third compact / bits paths, a third root name) - a path remembered from an earlier generation must not reappear. Oracles: (i) honoured: with a custom alloc path the identifier `std` occurs nowhere; docs off => no doc attribute, docs on => item and variant docs equal the registry's lines in order; codec off => no generator-emitted codec attribute, codec on => every variant index and compact marker present (bisimulation with index check on every generated id); (ii) orthogonal: a token-tree normaliser removes exactly the tokens each switch governs (doc attributes, codec attributes, the alloc prefix, the root identifier, the compact path, the bits path); all 64 normalised outputs must be identical, which implies that every single-switch edge of the hypercube changes nothing else. non-trivial = registry with >= 1 heap-allocated prelude type and >= 1 doc line; distinct by registry hash.",
+    rule: "cases = registries that contain every heap-allocated prelude type (Vec, String, Box, BTreeMap, BTreeSet, BinaryHeap, VecDeque, Cow) at field, nested and substituted-argument positions, multi-line docs on types and variants, compact fields, bit sequences, explicit variant indices (simulator programs, plus one hand-built 'all heap types' program per shard); each generated under ALL 2^6 combinations of {alloc path std/custom, docs on/off, codec attributes on/off, root name a/b, compact path a/b, decoded-bits path a/b}, followed on the same thread by 4 combinations with THIRD values (a second custom alloc path, third compact / bits paths, a third root name) - a path remembered from an earlier generation must not reappear; and once more with the root named like the first segment of the registry's own paths, which must give the output of any other root name with the name substituted, token for token. Oracles: (i) honoured: with a custom alloc path the identifier `std` occurs nowhere; docs off => no doc attribute, docs on => item and variant docs equal the registry's lines in order; codec off => no generator-emitted codec attribute, codec on => every variant index and compact marker present (bisimulation with index check on every generated id); (ii) orthogonal: a token-tree normaliser removes exactly the tokens each switch governs (doc attributes, codec attributes, the alloc prefix, the root identifier, the compact path, the bits path); all 64 normalised outputs must be identical, which implies that every single-switch edge of the hypercube changes nothing else. non-trivial = registry with >= 1 heap-allocated prelude type and >= 1 doc line; distinct by registry hash.",
     assumptions: &["the custom alloc path, both compact paths, both bits paths and both root names are chosen so that none of their identifiers occurs anywhere else in the output"],
-    required_counters: &["combinations_generated", "third_value_combinations", "hypercube_edges_implied", "heap_types[Vec]", "heap_types[String]", "heap_types[Box]", "heap_types[BTreeMap]", "heap_types[BTreeSet]", "heap_types[BinaryHeap]", "docs_compared"],
+    required_counters: &["combinations_generated", "third_value_combinations", "root_named_like_a_path_segment", "hypercube_edges_implied", "heap_types[Vec]", "heap_types[String]", "heap_types[Box]", "heap_types[BTreeMap]", "heap_types[BTreeSet]", "heap_types[BinaryHeap]", "docs_compared"],
     floor: (200, 4000),
     shards: (16, 16),
 };
@@ -316,6 +316,36 @@ pub fn judge(ctx: &mut Ctx, r: &PortableRegistry, substitutes: &[(String, String
                         replay(k),
                     );
                 }
+            }
+        }
+    }
+    // the root name is an opaque identifier: a root spelled like the first segment of the registry's
+    // own paths (`krate` for `krate::m::Foo`) must give the output of any other root name with that
+    // name substituted, token for token
+    if let Some(seg) = r.types.iter().filter(|t| reg::is_generated(&t.ty) && t.ty.path.segments[0] != "bitvec").map(|t| t.ty.path.segments[0].clone()).next() {
+        let other = combo(63, substitutes);
+        let mut same = other.clone();
+        same.root = seg.clone();
+        if let (GenOutcome::Ok(a), GenOutcome::Ok(b)) = (generate(r, &same.build()).outcome, generate(r, &other.build()).outcome) {
+            fn rename(ts: TokenStream, from: &str, to: &str) -> TokenStream {
+                ts.into_iter()
+                    .map(|t| match t {
+                        TokenTree::Group(g) => TokenTree::Group(Group::new(g.delimiter(), rename(g.stream(), from, to))),
+                        TokenTree::Ident(i) if i == from => TokenTree::Ident(Ident::new(to, Span::call_site())),
+                        t => t,
+                    })
+                    .collect()
+            }
+            ctx.count("root_named_like_a_path_segment", 1);
+            let want = rename(b, &other.root, &seg).to_string();
+            if a.to_string() != want {
+                let got = a.to_string();
+                let at = got.chars().zip(want.chars()).position(|(x, y)| x != y).unwrap_or(got.len().min(want.len()));
+                ctx.violation(
+                    "C09:root-name-not-opaque",
+                    format!("root `{seg}` (also the first segment of registry paths) does not give the output of root `{}` renamed: `…{}…` vs `…{}…`", other.root, got.chars().skip(at.saturating_sub(60)).take(140).collect::<String>(), want.chars().skip(at.saturating_sub(60)).take(140).collect::<String>()),
+                    replay(63),
+                );
             }
         }
     }
